@@ -5,8 +5,8 @@ from math import sqrt
 from compyle.api import declare
 
 
-def printf(s):
-    print(s)
+def printf(fmt, *args):
+    print(fmt % args)
 
 
 def SIGN(x=0.0, y=0.0):
